@@ -32,7 +32,7 @@ ASSUMPTIONS = [
     "ill-formedness of each negative edit is judged against inputparser/syntax.lark by construction of the edit; an edit the oracle's own parser accepts is skipped",
 ]
 TIMEOUT = {"quick": 30, "thorough": 150}
-DEADLINE = {"quick": 85, "thorough": 1500}
+DEADLINE = {"quick": 85, "thorough": 1000}
 MIN_DECIDING = {"quick": 60, "thorough": 500}
 NPOS = {"quick": 26, "thorough": 800}
 NNEG = {"quick": 260, "thorough": 6000}
